@@ -405,13 +405,13 @@ class Formatter:
             lambda m: self._replace_tokens(m.group(0), loaded_locale), escaped_fmt
         )
 
-        if not re.search("^" + pattern + "$", time):
+        m = re.search("^" + pattern + "$", time)
+        if not m:
             raise ValueError(f"String does not match format {fmt}")
 
-        def _get_parsed_values(m: Match[str]) -> Any:
-            return self._get_parsed_values(m, parsed, loaded_locale, now)
-
-        re.sub(pattern, _get_parsed_values, time)
+        # Values are taken from the anchored match: an unanchored search
+        # would stop at a name that is the prefix of another one
+        self._get_parsed_values(m, parsed, loaded_locale, now)
 
         return self._check_parsed(parsed, now)
 
